@@ -264,6 +264,16 @@ func (s *Service) UpdateSyncCommitteeDataRecord(
 ) {
 	s.slotDataRecordsMu.Lock()
 	s.slotDataRecords[slot] = synccommitteemessenger.SlotData{Root: root, ValidatorToCommitteeIndex: validatorToCommitteeIndex}
+	// Records are written for every slot but only cleaned up externally when inclusion
+	// verification is enabled, so keep the map bounded here as well.
+	if len(s.slotDataRecords) > maxSlotDataRecordsBeforeCleanUp && slot > minSlotDataRecordsToKeep {
+		lowestSlotToKeep := slot - minSlotDataRecordsToKeep
+		for recordSlot := range s.slotDataRecords {
+			if recordSlot < lowestSlotToKeep {
+				delete(s.slotDataRecords, recordSlot)
+			}
+		}
+	}
 	s.slotDataRecordsMu.Unlock()
 }
 
